@@ -100,7 +100,7 @@ impl<'a> Visitor for V<'a> {
         };
         let fam = cx.fam();
         let d = describe_step(cx);
-        if fam == FamId::CombinedEd && secp_valid_entry(&post.pairs) {
+        if known_combined_state(fam, post) {
             // known finding region (CombinedKey precedence); for plain ed25519 records with a secp256k1
             // entry the secp key types legitimately see a different record
             if !crate::engine::strict() && crate::engine::is_known(crate::props::c05::KNOWN_COMBINED_ED) {
